@@ -7,7 +7,7 @@
 //! sizes and Pending results are.
 #![allow(dead_code, unused_imports)]
 use super::*;
-use crate::verif_support::noop_cx;
+use crate::verif_support::{bytes_match, noop_cx};
 use tokio::io::ReadBuf;
 
 const FLEN: usize = 24;
@@ -96,34 +96,23 @@ fn any_state(blen_max: usize, cap: usize, reads: usize) -> (StreamingChunker<Moc
 
 fn inv_t(s: &StreamingChunker<MockChunker, MockReader>) -> bool {
     let cs = s.chunk_start as usize;
-    if cs + s.buf.len() != s.reader.pos {
-        return false;
-    }
-    let mut ok = true;
-    let mut j = 0;
-    while j < 12 {
-        if j < s.buf.len() {
-            ok &= s.buf[j] == FILE[cs + j];
-        }
-        j += 1;
-    }
-    ok
+    cs + s.buf.len() == s.reader.pos && s.buf.len() <= 8 && bytes_match(&s.buf[..], &FILE[..], cs)
 }
 
 #[kani::proof]
-#[kani::unwind(14)]
+#[kani::unwind(3)]
 fn c09_streaming_step_noreserve() {
     // buffer already has room for a refill: the reserve() branch is not taken
     streaming_step(4, 4 + REFILL_SIZE, 1);
 }
 #[kani::proof]
-#[kani::unwind(14)]
+#[kani::unwind(3)]
 fn c09_streaming_step_reserve() {
     // small buffer: the reserve(REFILL_SIZE) branch is taken before reading
     streaming_step(3, 4, 1);
 }
 #[kani::proof]
-#[kani::unwind(14)]
+#[kani::unwind(3)]
 fn c09_streaming_step_two_reads() {
     streaming_step(3, 12 + REFILL_SIZE, 2);
 }
@@ -137,14 +126,8 @@ fn streaming_step(blen_max: usize, cap: usize, reads: usize) {
             assert!(off == cs0);
             // ... and is exactly the source bytes at that offset
             let n = chunk.len();
-            assert!(n >= 1);
-            let mut j = 0;
-            while j < 12 {
-                if j < n {
-                    assert!(chunk.data()[j] == FILE[cs0 as usize + j]);
-                }
-                j += 1;
-            }
+            assert!(n >= 1 && n <= 8);
+            assert!(bytes_match(chunk.data(), &FILE[..], cs0 as usize));
             let eof_tail = s.reader.k > 0 && s.reader.script[s.reader.k - 1] == 0 && s.buf.is_empty() && s.chunk_start == cs0;
             if eof_tail {
                 // tail at end of stream: everything that was buffered, once
